@@ -60,25 +60,123 @@ func c13R1(p *Prog, r *Report) {
 		r.Fail(rule, "service.(*TCPRelay).handleConn:shape", p.posStr(fc.Body.Pos()), "expected Proceed, Abort, GetTCPClient, DialStream and BidirectionalCopy calls")
 		return
 	}
-	// the connection variable: assigned from every Proceed
-	connObj := proceeds[0].ResultVar(0)
+	// the connection variable: assigned from every Proceed, directly or through a helper that
+	// hands its result back (after expansion: a local of the helper copied into the variable)
+	connVars := map[types.Object]bool{}
 	for _, pc := range proceeds {
-		if pc.ResultVar(0) == nil || pc.ResultVar(0) != connObj {
-			r.Fail(rule, "service.(*TCPRelay).handleConn:proceed-result-variable", pc.Pos(), "the connections returned by the Proceed calls are not kept in one variable")
+		if pc.ResultVar(0) == nil {
+			r.Fail(rule, "service.(*TCPRelay).handleConn:proceed-result-variable", pc.Pos(), "the connection returned by Proceed is not kept in a variable")
 			return
 		}
+		connVars[pc.ResultVar(0)] = true
 	}
-	for _, d := range fc.Defs(connObj) {
-		okDef := false
-		for _, pc := range proceeds {
-			if pc.V == d {
-				okDef = true
+	plainCopies := func(into types.Object) (srcs []types.Object, defs []int) {
+		for _, d := range fc.Defs(into) {
+			as, ok := fc.G.V[d].Node.(*ast.AssignStmt)
+			if !ok || len(as.Lhs) != len(as.Rhs) {
+				continue
+			}
+			for i, l := range as.Lhs {
+				if objOf(info, l) == into {
+					if so := objOf(info, as.Rhs[i]); so != nil && so != into {
+						if _, isVar := so.(*types.Var); isVar {
+							srcs = append(srcs, so)
+							defs = append(defs, d)
+						}
+					}
+				}
 			}
 		}
-		if vs, isVS := fc.G.V[d].Node.(*ast.ValueSpec); isVS && len(vs.Values) == 0 {
-			okDef = true
+		return
+	}
+	for changed := true; changed; {
+		changed = false
+		for _, v := range fc.G.V {
+			as, ok := v.Node.(*ast.AssignStmt)
+			if !ok || v.Kind != VStmt || len(as.Lhs) != len(as.Rhs) {
+				continue
+			}
+			for i, l := range as.Lhs {
+				lo, so := objOf(info, l), objOf(info, as.Rhs[i])
+				if lo != nil && so != nil && connVars[so] && !connVars[lo] {
+					connVars[lo] = true
+					changed = true
+				}
+			}
 		}
-		r.Check(okDef, rule, "service.(*TCPRelay).handleConn:conn-variable-def:"+exprStr(fc.G.V[d].Node), p.posStr(fc.G.V[d].Node.Pos()), "declared nil or assigned from Proceed", "the connection variable is assigned from something other than Proceed: 'nil means no success signalled' no longer holds")
+	}
+	var connObj types.Object
+	nTested := 0
+	for o := range connVars {
+		if len(fc.TestEdges(func(e ast.Expr) bool { return objOf(info, e) == o }, WantNil)) > 0 {
+			connObj = o
+			nTested++
+		}
+	}
+	if nTested != 1 {
+		connObj = proceeds[0].ResultVar(0)
+		for _, pc := range proceeds {
+			if pc.ResultVar(0) != connObj {
+				r.Fail(rule, "service.(*TCPRelay).handleConn:proceed-result-variable", pc.Pos(), "the connections returned by the Proceed calls are not kept in one variable")
+				return
+			}
+		}
+	}
+	for o := range connVars {
+		srcs, copyDefs := plainCopies(o)
+		for _, d := range fc.Defs(o) {
+			okDef := false
+			for _, pc := range proceeds {
+				if pc.V == d {
+					okDef = true
+				}
+			}
+			if vs, isVS := fc.G.V[d].Node.(*ast.ValueSpec); isVS && len(vs.Values) == 0 {
+				okDef = true
+			}
+			for i, cd := range copyDefs {
+				if cd == d && connVars[srcs[i]] {
+					okDef = true
+				}
+			}
+			r.Check(okDef, rule, "service.(*TCPRelay).handleConn:conn-variable-def:"+exprStr(fc.G.V[d].Node), p.posStr(fc.G.V[d].Node.Pos()), "declared nil or assigned from Proceed", "the connection variable is assigned from something other than Proceed: 'nil means no success signalled' no longer holds")
+		}
+	}
+	// a Proceed whose result lands in a helper's local: that local is copied into the
+	// connection variable before anything that depends on the variable's state runs
+	for i, pc := range proceeds {
+		rv := pc.ResultVar(0)
+		if rv == connObj {
+			continue
+		}
+		handover := map[int]bool{}
+		for _, d := range fc.Defs(connObj) {
+			as, ok := fc.G.V[d].Node.(*ast.AssignStmt)
+			if !ok || len(as.Lhs) != len(as.Rhs) {
+				continue
+			}
+			for k, l := range as.Lhs {
+				if objOf(info, l) == connObj && fc.IsCopyOf(as.Rhs[k], rv) {
+					handover[d] = true
+				}
+			}
+		}
+		before := fc.G.ReachAfter(pc.V, func(v *Vertex) bool { return handover[v.ID] }, nil)
+		bad := ""
+		for _, other := range append(append([]CallSite{}, proceeds...), aborts...) {
+			if before[other.V] {
+				bad = other.Fn.Name() + " at " + other.Pos() + " can run before the connection variable has received this Proceed's result"
+			}
+		}
+		if before[dial.V] || before[copyc.V] {
+			bad = "the relay continues before the connection variable has received this Proceed's result"
+		}
+		for _, e := range fc.TestEdges(func(e ast.Expr) bool { return objOf(info, e) == connObj }, WantNil) {
+			if before[e.From] {
+				bad = "the connection variable is tested at " + p.posStr(fc.G.V[e.From].Node.Pos()) + " before it has received this Proceed's result"
+			}
+		}
+		r.Check(bad == "", rule, fmt.Sprintf("service.(*TCPRelay).handleConn:proceed#%d-result-handed-over", i), pc.Pos(), "the helper's result reaches the connection variable before any use of its state", bad)
 	}
 	nilEdges := fc.TestEdges(func(e ast.Expr) bool { return objOf(info, e) == connObj }, WantNil)
 	// failed Proceed returns
